@@ -2,8 +2,9 @@
    threads through the step relation of Model/WalkPar.v (kind 701), and prints what the
    theorems of Props/C07.v predict for a forest (kind 702).
 
-   case 701: (n forest resp slots)
-     forest = list of tree ; tree = (id (kid ...)) or a bare number for a leaf
+   case 701: (n roots resp slots)
+     roots  = list of (0 tree) | (1 k): a good root / a root path whose error entry k goes to the visitor
+              (the answer to it is resp k); tree = (id (kid ...)) or a bare number for a leaf
      resp   = list of numbers indexed by node id: 0 Continue, 1 Skip, 2 Quit
      slot   = (w kind recv visit snap) : what worker w did between the yield point `kind` at which it
               was resumed and its next yield point
@@ -151,11 +152,24 @@ Definition pc_code (p : pc) : nat :=
   | PSendQuit false => 12 | PSendQuit true => 13 | PExit => 14
   end.
 
+Definition dec_root (v : val) : root :=
+  match as_list v with
+  | [VN 1%N; k] => RootErr (as_nat k)
+  | [_; t] => RootOk (dec_tree t)
+  | _ => RootErr 0
+  end.
+
 Definition run_replay (v : val) : val :=
   let n := as_nat (fld 0 v) in
-  let f := map dec_tree (as_list (fld 1 v)) in
+  let roots := map dec_root (as_list (fld 1 v)) in
   let resp := dec_resp (as_list (fld 2 v)) in
-  let s0 := init n f in
+  let f := match pre_loop resp roots [] with Some f => f | None => [] end in
+  match visit_start resp n roots with
+  | None =>
+      (* visit returns from its root loop: no worker may have been observed *)
+      let code := match as_list (fld 3 v) with [] => 0 | _ => 8 end in
+      VL [of_nat code; of_nat 0; VL []; of_nat 0; of_nat 0; of_nat 0; VL []; VL []; of_bool true; of_nat 0]
+  | Some s0 =>
   let '(a, err) := replay resp (mkacc s0 0 0) 0 (as_list (fld 3 v)) in
   let s := a_st a in
   let '(code, slot, detail) :=
@@ -166,7 +180,8 @@ Definition run_replay (v : val) : val :=
     end in
   VL [of_nat code; of_nat slot; detail; of_nat (a_steps a); of_nat (a_busy a); of_nat (mu s0);
       of_list of_nat (rev (visited s)); of_list of_nat (ids_under_skip resp f);
-      of_bool (forallb is_exit (pcs s)); of_nat (active s)].
+      of_bool (forallb is_exit (pcs s)); of_nat (active s)]
+  end.
 
 (* kind 702: (n forest resp) -> (ids_under_skip  forest_ids  mu(init)) *)
 Definition run_predict (v : val) : val :=
